@@ -58,7 +58,7 @@ def build(p: Dict[str, Any]) -> Dict[str, Any]:
         # lib/imp.yaml is reached twice, through differently spelled paths (a diamond): it must be read once
         # ... and once more, in the middle of the list, spelled differently: the imports after it must still resolve
         "imports": ["lib/imp.yaml", "lib/extra.yaml", "./lib/imp.yaml", "lib/zeta/indep.yaml", "lib/../lib/extra.yaml", "alpha.yaml"],
-        "constants": {"K2": "K * 2", "BIG": "K * 1000 + 7", "HALF": "K / 2", "INV": "1 / K", "SPAN": "(K2 + 1) / 2", "THIRD": "K / 3", "SEVENTH": "(K2 + 1) / 7",
+        "constants": {"K2": "K * 2", "BIG": "K * 1000 + 7", "HALF": "K / 2", "INV": "1 / K", "SPAN": "(K2 + 1) / 2", "DHALF": "K2 / 2", "THIRD": "K / 3", "SEVENTH": "(K2 + 1) / 7",
                       "CONSTANT_WITH_A_NAME_THAT_GOES_PAST_COLUMN_FORTY_EIGHT": 77,
                       **{f"W{i}": i + 1 for i in range(12)}, "WIDE": " + ".join(f"W{i}" for i in range(12))},
         "metadata": {"author": "verif", "rig": "bench 3", "revision": 7, "calibrated": True},
@@ -69,7 +69,8 @@ def build(p: Dict[str, Any]) -> Dict[str, Any]:
         "struct_defs": {"MID": {"x": "INNER", "y": "INNER[2]", "z": arr(p["n3"], "K")}},
         "message_defs": {
             "SIG": {"id": 1000, "fields": None},
-            "MSG_A": {"id": 1001, "fields": {"c": "char", "d": "A2", "e": arr(p["n1"], "K2"), "o": "MID", "s": "char[16]", "u": arr(p["n2"], 3)}},
+            "MSG_A": {"id": 1001, "fields": {"c": "char", "d": "A2", "e": arr(p["n1"], "K2"), "o": "MID", "s": "char[16]", "u": arr(p["n2"], 3),
+                                              "v": "int8[K / 2 * 4]", "w": "int8[DHALF]"}},
             "MSG_B": {"id": 1002, "fields": "MSG_A"},
             "SIGNAL_WITH_A_NAME_THAT_GOES_PAST_COLUMN_FORTY_EIGHT": {"id": 1040, "fields": None},
             "FMT_DATA": {"id": 1041, "fields": None},
